@@ -38,6 +38,7 @@ def correspondence(ctx):
                 continue        # '<' and '>' and the sign agree: other operators are C02's business
             ctx.disagree(stream, "vcmp %s" % name, d["impl"], d["model"], False, {"scheme": name, "a": d["a"], "b": d["b"]})
     _laws(ctx, 60 if ctx.thorough else 22)
+    _after_use(ctx)
 
 
 def search(ctx):
@@ -93,6 +94,62 @@ def search(ctx):
         if ctx.rep.violations:
             return
     _laws(ctx, 70)
+
+
+def _after_use(ctx):
+    """a history: the order between version objects is the same after the objects have been USED (every public
+    zero-argument method and property of the version and of its value object called, a range built from them and
+    asked for membership) as before, and the same as between fresh objects of the same texts"""
+    import inspect
+    from univers.version_constraint import VersionConstraint
+    for name in A.ALL:
+        rng = ctx.rng("c01-use", name)
+        pool = A.valid_pool(name, rng, 12)
+        stream = "after-use:" + name
+
+        def matrix(objs):
+            out = {}
+            for sa, a in objs:
+                for sb, b in objs:
+                    try:
+                        out[(sa, sb)] = (bool(a < b), bool(a > b))
+                    except Exception as e:  # noqa: BLE001
+                        out[(sa, sb)] = type(e).__name__
+            return out
+        before = matrix(pool)
+        for s, v in pool:
+            val = getattr(v, "value", None)
+            for obj in [v] + ([val] if val is not None and not isinstance(val, (str, bytes, int, tuple, bool)) else []):
+                for an in dir(obj):
+                    if an.startswith("_"):
+                        continue
+                    try:
+                        a = getattr(obj, an)
+                        if callable(a):
+                            sig = inspect.signature(a)
+                            if any(p.default is p.empty and p.kind in (p.POSITIONAL_ONLY, p.POSITIONAL_OR_KEYWORD, p.KEYWORD_ONLY)
+                                   for p in sig.parameters.values()):
+                                continue
+                            a()
+                    except Exception:  # noqa: BLE001
+                        pass
+            try:
+                c = VersionConstraint(comparator=">=", version=v)
+                for _t, w in pool[:4]:
+                    w in c
+            except Exception:  # noqa: BLE001
+                pass
+        after = matrix(pool)
+        fresh = matrix([(s, S.vclass(name)(s)) for s, _ in pool])
+        ctx.count(stream, key=tuple(s for s, _ in pool), nontrivial=True)
+        for label, m2 in (("the same objects after use", after), ("fresh objects of the same texts", fresh)):
+            diff = [k for k in before if before[k] != m2[k]]
+            if diff:
+                sa, sb = diff[0]
+                ctx.disagree(stream, "%s / %s" % (sa, sb), "%s: (a<b, a>b) was %s, is %s" % (label, before[(sa, sb)], m2[(sa, sb)]), "unchanged", True,
+                             {"scheme": name, "a": sa, "b": sb, "clause": "the order between two versions changed with use: " + label},
+                             spec="the order does not depend on history")
+                break
 
 
 def _laws(ctx, psize, only=None, pool=None, stream=None):
